@@ -20,6 +20,18 @@ CHECKS = {
  "C04": (E1, "bounded-exhaustive history enumeration over programs with untracked reads; must-re-execute monitor + reference values",
          "For every history over external-cell changes published by synthetic writes of LOW/MEDIUM/HIGH durability, input writes and requests: every answer of a function whose last execution read untracked state must have been produced by an execution in the same revision, values equal the reference reading the external cells as of that revision, and dependents obey the C03 justification monitor (equal value => reused).",
          "Bounded depth/programs. External state only changes together with a new revision (salsa's documented contract).", "5/C04"),
+ "C05": (E1, "bounded-exhaustive history enumeration over lru programs with capacity changes and explicit eviction, against the value reference, an LRU list model and the execution-justification monitor",
+         "All histories (depth 5-6, 14 operations: requests of 4 lru keys and of a caller, writes, synthetic writes, trigger_lru_eviction, set_lru_capacity 0..3) on two programs: (a) values = reference (transparency); (b) immediately after every new revision / trigger the number of cached results (Database::memory_usage, weight 1 each) is at most capacity plus the results not subject to eviction (untracked origin, or requested while eviction was disabled), and results the LRU model retains are not re-executed without another justification; (c) a result the model evicted is recomputed only inside a request of that key, never while verifying a dependent.",
+         "The LRU model orders keys by fetch time (top level and from bodies), exactly the notion of 'requested'. Bounded as stated.", "5/C05"),
+ "C06": (E1, "bounded-exhaustive history enumeration over struct-creating programs with an identity-map monitor, discard/enumeration checks and the C03 justification monitor",
+         "Creators produce 0-3 tracked structs with identity fields taken from inputs (equal identities twice, conditional creation, an honest-hash and a colliding-hash struct type, two creators with equal identity values); for every history (depth 5-6): same (creator, identity value, occurrence) as in the previous execution => same id; ids pairwise distinct within an execution and across creators; a struct that is no longer created is discarded together with every memoized result keyed by it and is no longer enumerated; functions keyed by a struct are not re-executed when only unread fields changed.",
+         "For the colliding-hash type stability is asserted only while the creation sequence is unchanged; in-place slot reuse with a new generation counts as discard. Bounded.", "5/C06"),
+ "C07": (E1, "bounded-exhaustive history enumeration over slot-churning programs (conditional struct creation, interned types with revisions = 1..3, struct- and tuple-keyed functions); value reference + dead-identity monitor",
+         "All histories (depth 6-7) over programs whose results are functions of the field data of structs/interned values, so aliasing changes a value: every value and field read-back equals the reference, a fresh database agrees, and no memo whose last execution read an identity that has since been reclaimed (interned slot reused, struct discarded) is ever validated as unchanged.",
+         "Interned data hashes to one shard on purpose so that slot reuse is frequent. Bounded.", "5/C07"),
+ "C09": (E1, "bounded-exhaustive enumeration of interning / revalidation / revision-bump histories for revisions in {1,2,3,unbounded} with an only-if reclamation-rule monitor",
+         "All histories of depth 7-9 over {write the interned data of a LOW function (3 values), synthetic write, request the LOW interning function, request a dependent (revalidation), request a HIGH interning function}: a slot is reused for different data only if its old value was only ever interned at LOW durability, the type allows collection, at least `revisions` revisions used the type, and the old value was neither interned nor revalidated in any of the last `revisions` such revisions; every value whose slot was not taken over keeps its id.",
+         "Interning functions are uniformly LOW or HIGH (envelope rule). Bounded.", "5/C09"),
  "C12": (E1, "bounded-exhaustive enumeration of cyclic programs x histories on the real database against a Kleene least-fixpoint reference and a fresh-database differential",
          "Programs: every 3-node program over 27 monotone node templates on the bit-set lattice (join, meet, input masks, input-controlled branches, calls to any node incl. itself) with cycle_initial = bottom and default / joining cycle_fn (thorough: all 2 x 19683; quick: named shapes + a stride sample), all histories of depth 4 over input writes, every node as entry point, and a code swap that forms/breaks cycles; after every operation the value must equal the least fixpoint computed by Kleene iteration, and a fresh database with the same inputs must agree on every node.",
          "Bounded (3 nodes + optional plain caller, depth 4, 3-bit lattice). Known findings (genuine defects of the pinned tree, see known_findings.json / DESIGN.md) are reported as KNOWN-FINDING lines.", "5/C12"),
